@@ -45,7 +45,7 @@ def array_risk(f, p):
 
 
 def run(ctx):
-    units = [os.path.join(ir.VERIF, 'drivers', d) for d in DRIVERS]
+    units = [os.path.join(ir.VERIF, 'drivers', d) for d in DRIVERS + (['inst_containers_thorough.cpp'] if ctx.tier == 'thorough' else [])]
     lib = ir.library_units() if ctx.tier == 'thorough' else []
     prog = ir.load_units(units + lib, force_inst=units)
     ctx.use_program(prog)
